@@ -58,9 +58,18 @@ class Facts:
         # functions that did not exist when the rules were reviewed are TRANSPARENT: they are inlined into their callers, so that extracting a
         # helper / splitting a function does not move a rule's sites out of the function the rule is anchored in
         self.new_fns = set()
+        self.aliases = {}
         if os.environ.get("QV_NO_INLINE") != "1" and os.path.exists(KNOWN_FNS):
-            known = set(json.load(open(KNOWN_FNS))["fns"])
-            self.new_fns = {k for k, f in self.fns.items() if f.get("mir") and k.split("::{closure")[0] not in known and not f.get("derived")}
+            base = json.load(open(KNOWN_FNS))["fns"]
+            known = set(base)
+            fresh = {k for k, f in self.fns.items() if f.get("mir") and "::{closure" not in k and k not in known and not f.get("derived")}
+            gone = {k for k in known if k not in self.fns and k.split("::")[0] in self.crates}
+            if fresh and gone and isinstance(base, dict):
+                self.aliases = match_renames(self, base, gone, fresh)
+                if self.aliases:
+                    self._apply_aliases(self.aliases)
+            self.new_fns = {k for k, f in self.fns.items() if f.get("mir") and k.split("::{closure")[0] not in known and not f.get("derived")
+                            and k.split("::{closure")[0] in self.fns}
         self.absorbed = set()
         if self.new_fns:
             called = set()
@@ -75,6 +84,43 @@ class Facts:
                             if c in self.new_fns and c != key:
                                 called.add(c)
             self.absorbed = {k for k in self.new_fns if k.split("::{closure")[0] in called}
+
+    def _apply_aliases(self, aliases):
+        """a reviewed function that was merely RENAMED keeps its reviewed name in the facts (keys, callee references, closures), so that every rule
+        anchored on it — and every who-may-call list naming it — still applies."""
+        pairs = sorted(aliases.items(), key=lambda kv: -len(kv[0]))
+
+        def ren(sv):
+            for newk, oldk in pairs:
+                if sv == newk:
+                    return oldk
+                if sv.startswith(newk + "::{closure"):
+                    return oldk + sv[len(newk):]
+                if ("closure:" + newk) in sv:
+                    return sv.replace("closure:" + newk, "closure:" + oldk)
+            return sv
+
+        def walk(o):
+            if isinstance(o, dict):
+                for k, v in o.items():
+                    if isinstance(v, str):
+                        if "::" in v:
+                            o[k] = ren(v)
+                    else:
+                        walk(v)
+            elif isinstance(o, list):
+                for i, v in enumerate(o):
+                    if isinstance(v, str):
+                        if "::" in v:
+                            o[i] = ren(v)
+                    else:
+                        walk(v)
+        news = tuple(aliases)
+        fns2 = {}
+        for k, f in self.fns.items():
+            walk(f)
+            fns2[f["key"] if any(k == n or k.startswith(n + "::{closure") for n in news) else k] = f
+        self.fns = fns2
 
     # ------------------------------------------------------------------ lookup
     def fn(self, key, required=True):
@@ -243,6 +289,49 @@ class Facts:
                 if callee in self.fns and callee not in seen:
                     work.append(callee)
         return seen - self.absorbed if self.absorbed else seen
+
+
+def fn_signature(f):
+    """what identifies a function apart from its name: parameter and return types, and the set of things it calls."""
+    mir = f["mir"]
+    callees = set()
+    for b in mir["blocks"]:
+        t = b["term"]
+        if t["k"] == "call" and not b.get("cleanup") and t.get("callee"):
+            callees.add("::".join(t["callee"].split("::")[-2:]))
+    return {"argc": mir["argc"], "params": [l["ty"] for l in mir["locals"][1:mir["argc"] + 1]], "ret": mir["locals"][0]["ty"], "callees": sorted(callees)[:60],
+            "blocks": len(mir["blocks"])}
+
+
+def match_renames(F, base, gone, fresh):
+    """{new key: reviewed key} for reviewed functions that disappeared while a new function of the same crate with (nearly) the same signature and
+    callee set appeared: a rename / move. Conservative: best match must be clearly better than the runner-up."""
+    out = {}
+    taken = set()
+    for old in sorted(gone):
+        sig = base.get(old) or {}
+        if not sig:
+            continue
+        best = []
+        for k in fresh:
+            if k in taken or k.split("::")[0] != old.split("::")[0]:
+                continue
+            s2 = fn_signature(F.fns[k])
+            if abs(s2["argc"] - sig["argc"]) > 1:
+                continue
+            a, b = set(sig["callees"]), set(s2["callees"])
+            own = "::".join(old.split("::")[-2:])
+            b = {("::".join(old.split("::")[-2:]) if x == "::".join(k.split("::")[-2:]) else x) for x in b}   # self-recursion under the new name
+            jac = len(a & b) / float(len(a | b)) if (a | b) else (1.0 if abs(s2["blocks"] - sig["blocks"]) <= 2 else 0.0)
+            pa, pb = sorted(sig["params"]), sorted(s2["params"])
+            ptypes = len(set(pa) & set(pb)) / float(max(len(set(pa) | set(pb)), 1)) if (pa or pb) else 1.0
+            score = 0.6 * jac + 0.25 * ptypes + 0.15 * (1.0 if s2["ret"] == sig["ret"] else 0.0)
+            best.append((score, k))
+        best.sort(reverse=True)
+        if best and best[0][0] >= 0.7 and (len(best) == 1 or best[0][0] - best[1][0] >= 0.15):
+            out[best[0][1]] = old
+            taken.add(best[0][1])
+    return out
 
 
 def _renum(o, loff, boff, poff):
